@@ -5,12 +5,18 @@
  *                   and the signer certificate could be extracted and X509_verify_cert returned 1
  *                   and a constraint set is configured: the file's set if one was given, else the context's;
  *                       a missing or empty set is KSI_PUBFILE_VERIFICATION_NOT_CONFIGURED
- *                   and for EVERY constraint of that set the subject has a value for the OID and the value is
- *                       the expected string;
+ *                   and for EVERY constraint of that set the subject has a value for the OID and that text is
+ *                       the expected string: SAME LENGTH and the same characters (a text that is only a prefix
+ *                       of the configured value, or only starts with it, does not match);
  *   the bytes verified are exactly (data, data_len); every certificate copy is released exactly once.
  * PKCS#7 / X.509 processing itself (what OpenSSL does) is outside: the stubs return arbitrary values.
- * Shape per instance: NFILE (-1: no file-level set, 0..2 entries), NCTX (-1 / 0..2), value lengths 1..2;
- * symbolic: all OpenSSL outcomes, the subject's attribute texts, the expected values' characters, data_len. */
+ * Shape per instance: NFILE (-1: no file-level set, 0..2 entries), NCTX (-1 / 0..2), and per constraint position
+ * the length of the certificate's attribute text (TLENS) and of the configured value (VLENS), each 0..3: equal,
+ * text shorter than value (symbolic characters: proper prefix and non-prefix alike), text longer than value, empty.
+ * Symbolic: all OpenSSL outcomes, every character of texts and values (non-NUL), data_len.
+ * X509_NAME_get_text_by_OBJ stub = OpenSSL's contract for a text that fits the buffer: copies the text and a NUL,
+ * returns its length.  OUTSIDE: attribute texts of 255+ characters (truncated by OpenSSL to the 256-byte local
+ * buffer of the function under test; a 255-character constraint would then match a longer attribute). */
 #include "verif.h"
 #include "internal.h"
 #include "impl/ctx_impl.h"
@@ -25,7 +31,14 @@
 #define NCTX -1
 #endif
 #define MAXC 2
-#define VLEN 2          /* characters per expected value / attribute text */
+#define LMAX 3          /* longest attribute text / configured value */
+#ifndef TLENS
+#define TLENS {2, 2}    /* length of the certificate's attribute text for constraint position 0, 1 */
+#endif
+#ifndef VLENS
+#define VLENS {2, 2}    /* length of the configured value for constraint position 0, 1 */
+#endif
+static const unsigned tlen[MAXC] = TLENS, vlen[MAXC] = VLENS;
 
 /* ---------- recording OpenSSL stubs ---------- */
 static char o_bio[4], o_stack[4], o_chain[4], o_x509_signer[4], o_x509_copy[2][4], o_storectx[4], o_store[4], o_name[4], o_oid[2 * MAXC][4];
@@ -35,7 +48,7 @@ static struct {
 	unsigned dups, frees; int double_free;
 	unsigned verify_calls; int verify_ret; X509 *init_cert; X509_STORE *init_store; STACK_OF(X509) *init_chain;
 	unsigned subj_calls; X509 *subj_cert;
-	unsigned txt2obj[2 * MAXC], gettext[2 * MAXC]; int oid_ok[2 * MAXC], text_ret[2 * MAXC]; char text[2 * MAXC][VLEN + 1];   /* index: file set 0..MAXC-1, context set MAXC.. */
+	unsigned txt2obj[2 * MAXC], gettext[2 * MAXC]; int oid_ok[2 * MAXC], text_ret[2 * MAXC]; char text[2 * MAXC][LMAX + 1];   /* index: file set 0..MAXC-1, context set MAXC.. */
 	unsigned oid_free;
 } o;
 static const KSI_CertConstraint *set_file, *set_ctx;
@@ -81,15 +94,19 @@ unsigned long ERR_peek_last_error(void) { return ND(unsigned, ossl_err); }
 int X509_NAME_get_text_by_OBJ(const X509_NAME *name, const ASN1_OBJECT *obj, char *buf, int len) {
 	(void)name;
 	for (unsigned i = 0; i < 2 * MAXC; i++) if ((const char *)obj == o_oid[i]) {
-		o.gettext[i]++; o.text_ret[i] = ND_BOOL(ossl_attr_present) ? VLEN : -1;
-		if (o.text_ret[i] >= 0 && len > VLEN) { for (unsigned k = 0; k < VLEN; k++) { o.text[i][k] = (char)ND(u8, ossl_attr_char); ASSUME(o.text[i][k] != 0); buf[k] = o.text[i][k]; } buf[VLEN] = 0; }
+		const unsigned tl = tlen[i % MAXC];
+		o.gettext[i]++; o.text_ret[i] = ND_BOOL(ossl_attr_present) ? (int)tl : -1;
+		if (o.text_ret[i] >= 0 && len > LMAX) {
+			for (unsigned k = 0; k < LMAX; k++) if (k < tl) { o.text[i][k] = (char)ND(u8, ossl_attr_char); ASSUME(o.text[i][k] != 0); buf[k] = o.text[i][k]; }
+			o.text[i][tl] = 0; buf[tl] = 0;
+		}
 		return o.text_ret[i];
 	}
 	return -1;
 }
 void ASN1_OBJECT_free(ASN1_OBJECT *a) { if (a != NULL) o.oid_free++; }
 
-static KSI_CertConstraint *mk_set(int n, char (*vals)[VLEN + 1], const char *const *oids) {
+static KSI_CertConstraint *mk_set(int n, char (*vals)[LMAX + 1], const char *const *oids) {
 	if (n < 0) return NULL;
 	KSI_CertConstraint *a = malloc(sizeof(KSI_CertConstraint) * (MAXC + 1));
 	for (int i = 0; i < MAXC + 1; i++) { a[i].oid = NULL; a[i].val = NULL; }
@@ -100,8 +117,11 @@ static KSI_CertConstraint *mk_set(int n, char (*vals)[VLEN + 1], const char *con
 void harness(void) {
 	VERIF_ctx_init(); KSI_CTX *ctx = VERIF_ctx;
 	static const char *const oids_f[MAXC] = {"1.2.840.113549.1.9.1", "2.5.4.10"}, *const oids_c[MAXC] = {"2.5.4.3", "2.5.4.6"};
-	static char vf[MAXC][VLEN + 1], vc[MAXC][VLEN + 1];
-	for (unsigned i = 0; i < MAXC; i++) for (unsigned k = 0; k < VLEN; k++) { vf[i][k] = (char)ND(u8, expected_value_char); vc[i][k] = (char)ND(u8, expected_value_char); ASSUME(vf[i][k] != 0 && vc[i][k] != 0); }
+	static char vf[MAXC][LMAX + 1], vc[MAXC][LMAX + 1];
+	for (unsigned i = 0; i < MAXC; i++) {
+		for (unsigned k = 0; k < LMAX; k++) if (k < vlen[i]) { vf[i][k] = (char)ND(u8, expected_value_char); vc[i][k] = (char)ND(u8, expected_value_char); ASSUME(vf[i][k] != 0 && vc[i][k] != 0); }
+		vf[i][vlen[i]] = 0; vc[i][vlen[i]] = 0;
+	}
 	KSI_CertConstraint *fileC = mk_set(NFILE, vf, oids_f), *ctxC = mk_set(NCTX, vc, oids_c);
 	ctx->certConstraints = ctxC;
 	set_file = fileC; set_ctx = ctxC;
@@ -123,7 +143,9 @@ void harness(void) {
 	for (int i = 0; i < MAXC; i++) if (i < nact) {
 		unsigned j = base + (unsigned)i;
 		int m = o.txt2obj[j] == 1 && o.oid_ok[j] && o.gettext[j] == 1 && o.text_ret[j] >= 0;
-		for (unsigned k = 0; k < VLEN; k++) if (m && o.text[j][k] != active[i].val[k]) m = 0;
+		/* string equality: same length and the same characters */
+		if (tlen[i] != vlen[i]) m = 0;
+		for (unsigned k = 0; k < LMAX; k++) if (m && k < tlen[i] && o.text[j][k] != active[i].val[k]) m = 0;
 		if (!m) all_match = 0;
 	}
 	unsigned other_lookups = 0;
@@ -138,7 +160,7 @@ void harness(void) {
 			"C18.H2b trusted only if the extracted signer certificate verified against the truststore's store");
 		CHECK(nact >= 1, "C18.H2b trusted only if at least one certificate constraint is configured");
 		CHECK(all_match && o.subj_calls == 1, "C18.H2b trusted only if every configured constraint matches the signer certificate's subject");
-#if (NFILE >= 1) || (NFILE < 0 && NCTX >= 1)
+#ifdef W_TRUSTED
 		WITNESS_POINT("trusted");
 #endif
 	} else {
@@ -148,9 +170,19 @@ void harness(void) {
 		if (o.p7_calls == 1 && o.p7_ret == 1 && o.verify_calls == 1 && o.verify_ret == 1) {
 			if (nact < 1) CHECK(res == KSI_PUBFILE_VERIFICATION_NOT_CONFIGURED, "C18.H2b without any configured constraint verification is reported as not configured");
 #if NFILE >= 1 || (NFILE < 0 && NCTX >= 1)
-			if (o.subj_calls == 1 && o.gettext[base] == 1 && o.text_ret[base] >= 0 && (o.text[base][0] != active[0].val[0] || o.text[base][1] != active[0].val[1])) {
-				CHECK(res == KSI_PKI_CERTIFICATE_NOT_TRUSTED, "C18.H2b a subject value that differs from the first constraint makes the certificate not trusted");
-				WITNESS_POINT("constraint mismatch refused");
+			if (o.subj_calls == 1 && o.gettext[base] == 1 && o.text_ret[base] >= 0) {
+				int same = (tlen[0] == vlen[0]), common = 1;     /* common: equal on the shorter of the two lengths */
+				for (unsigned k = 0; k < LMAX; k++) if (k < tlen[0] && k < vlen[0] && o.text[base][k] != active[0].val[k]) common = 0;
+				if (!common) same = 0;
+				if (!same) {
+					CHECK(res == KSI_PKI_CERTIFICATE_NOT_TRUSTED, "C18.H2b a subject value that differs from the first constraint makes the certificate not trusted");
+#ifndef W_NO_MISMATCH   /* instance in which text and first value are both empty: they cannot differ */
+					WITNESS_POINT("constraint mismatch refused");
+#endif
+#ifdef W_PREFIX
+					if (common) WITNESS_POINT("text and value agree on the shorter length only (prefix): refused");
+#endif
+				}
 			}
 			if (o.subj_calls == 1 && o.gettext[base] == 1 && o.text_ret[base] < 0) CHECK(res == KSI_PKI_CERTIFICATE_NOT_TRUSTED, "C18.H2b a subject without the constrained attribute is not trusted");
 #endif
